@@ -34,6 +34,9 @@ CHECKS = {
    text='For all finite IEEE doubles start/increment in the stated ranges and each listed count, the table sizes are decided bit-precisely in QF_FP on the real grid construction and the point values under the standard model of floating-point arithmetic; far-field angle tables likewise.',
    design='DESIGN.md 3 (C16)',
    technique='symbolic execution of the real grid/angle code on z3 Float64 terms (counts, bit-precise) and on reals with per-operation rounding-error variables (values); z3 decides per count'),
+ 'C19': dict(
+   text='util.format_float runs unstubbed on a symbolic real: for every real with 1e-30<=|f|<=1e12 (and 0), both modes and signs, z3 decides per path (decade, digit count, format) in mixed integer/real arithmetic that the text read back is within 5e-6 relative / 1e-6 absolute, at most 9 characters with a fraction, never -0. The report writers run on symbolic currents/voltages/fields: every printed number is the value its row is about and the report is structurally complete. Two open findings (V/m table precision).',
+   design='DESIGN.md 3 (C19)'),
  'C08': dict(
    text='For all load values, frequencies and (for the system-level clauses) all non-singular system matrices within the stated sizes, '
         'z3 finds no input for which a load deviates from the series element it describes; bounded by catalogue geometries and matrix size.',
